@@ -15,7 +15,12 @@ META = {
              "decision to facts extracted from beacon.go / swamp.go / treasure.go."),
     "note": ("Trusted: Lean kernel (propext, Classical.choice, Quot.sound); extract/c07.go; harness/c07.go; Go's sort.Slice sorts "
              "whenever its less function is a strict weak order; records with equal sort values are compared as sets (ties free). "
-             "Values are modelled by their rank inside their type; timestamps by integers."),
+             "Values are modelled by their rank inside their type; timestamps by integer nanoseconds. Histories are Set (insert / "
+             "in-place update), Delete, IncrementInt64 (in-place value and expiry change), ShiftExpiredTreasures (walks and empties the "
+             "expiration index), close+reload, and reads; PatchTreasures meta, ReindexExpiration and CloneAndDeleteMatching are not "
+             "driven (the latter goes through GetBeacon, whose extracted facts getBeaconServesAllValueTypes=no / "
+             "getBeaconBuildsRequestedType=no say it serves only int64/float64/string value types and always builds them as int64 — "
+             "C11's subject)."),
     "design_ref": "§8 C07",
 }
 
@@ -211,13 +216,17 @@ def judge(c):
     unexplained = []
     mism = []
     n = max(len(c.ops), len(c.impl), len(c.model))
-    pending_vt, pending_mixed = None, False
+    pending_vt, pending_mixed, pending_shift = None, False, False
     for i in range(n):
         op = c.ops[i] if i < len(c.ops) else ""
         impl = c.impl[i] if i < len(c.impl) else "<missing>"
         model = c.model[i] if i < len(c.model) else "<missing>"
         flags = c.flags[i] if i < len(c.flags) else []
         f = op.split(" ")
+        if pending_shift:
+            for k in [k for k, r in sh.recs.items() if r["expire"] != 0]:
+                sh.delete(k)            # the previous line shifted every record with an expiry out of the swamp
+            pending_shift = False
         if pending_vt:
             hist.value_types_read.add(pending_vt)   # the previous line's value read, now part of the history
             hist.value_read_over_mixed = hist.value_read_over_mixed or pending_mixed
@@ -233,6 +242,10 @@ def judge(c):
         elif f[0] == "inc" and len(f) == 4 and int(f[2]) != 0:
             hist.on_set(sh, f[1], 0, 0, int(f[3]))
             sh.inc(f[1], int(f[2]), int(f[3]))
+        shift = f[0] == "shiftexp"
+        pending_shift = shift
+        if shift:
+            f = ["q", "expire", "asc", "0", "0", "-", "-", "u"]   # judged as a full read of the expiration index
         if f[0] != "q" or len(f) != 8:
             if impl != model:
                 mism.append(i)
@@ -319,7 +332,13 @@ def spec_violated(rep):
             sh.delete(f[1])
         elif f[0] == "inc" and len(f) == 4:
             sh.inc(f[1], int(f[2]), int(f[3]))
-        elif f[0] == "q" and len(f) == 8 and i == last:
+        elif f[0] == "shiftexp":
+            if i == last:
+                f = ["q", "expire", "asc", "0", "0", "-", "-", "u"]
+            else:
+                for k in [k for k, r in sh.recs.items() if r["expire"] != 0]:
+                    sh.delete(k)
+        if f[0] == "q" and len(f) == 8 and i == last:
             if impl.startswith("r "):
                 bad = page_verdict(sh, parse_q(f), [k for k in impl[2:].split(",") if k])
                 if bad:
@@ -367,8 +386,10 @@ def run(ctx):
         samples.append({"ops": [c.ops[i] for i in cs][:14], "impl": [c.impl[i] for i in cs if i < len(c.impl)][:14]})
     return K.finish(
         ctx, "proof",
-        rule=("histories = 9 corpus cases (the proved witnesses) + random cases of 6..40 ops (..76 thorough) over 3..10 keys: set "
-              "(new key or update; 13 content types; CreatedAt/UpdatedAt/ExpiredAt each present or absent), delete, and index reads "
+        rule=("histories = 11 corpus cases (the proved witnesses, sub-second windows, increment/reload/shift) + random cases of 6..40 ops "
+              "(..76 thorough) over 3..10 keys, every third on a persistent swamp: set (new key or update; 13 content types; "
+              "CreatedAt/UpdatedAt/ExpiredAt in nanoseconds, each present or absent), delete, IncrementInt64, ShiftExpiredTreasures, "
+              "close+reload, and index reads "
               "(15 index types x asc/desc x from 0..5 x limit 0..6 x optional fromTime/toTime, unary and streamed) interleaved so that "
               "indexes are built early and then maintained; every case ends with full reads of its focused indexes. A case is "
               "non-trivial when it has >= 3 ops; distinct = distinct op texts. Each read is compared with the Lean model up to ties "
